@@ -124,6 +124,10 @@ impl<'d> Ctx<'d> {
     pub fn class_dyn(&mut self, c: String) {
         *self.classes_dyn.entry(c).or_insert(0) += 1;
     }
+    /// add `n` observations to a class at once (exhaustive sub-spaces report their size this way)
+    pub fn class_add(&mut self, c: &str, n: u64) {
+        *self.classes_dyn.entry(c.to_string()).or_insert(0) += n;
+    }
     #[inline]
     pub fn eval(&mut self) {
         self.evals += 1;
